@@ -157,6 +157,9 @@ def boundary_cases():
     yield "r 2 U1.0.100000.1.2,R2.0,P2.0,R1.0,R2.0,U2.1.20000.0.0,R1.1"
     yield "m 2 R1.0,R2.0,U3.0.32768.0.0,R1.0,R2.1,U1.1.32769.1.1,P3.1,R2.1"
     yield "r 1 U2.0.30000.2.2,R1.0,R1.0,R1.0,R2.0"
+    yield "m 1 U1.0.60000.1.3,R2.0,P3.0,R2.0,R1.0,R3.0"
+    yield "r 1 U1.0.20000.1.3,R2.0,P2.0,R2.0,R1.0,R2.0"
+    yield "m 1 U2.0.90000.1.3,R1.0,R3.0,R2.0,R1.0"
     for inst in H.INSTANCES:
         for n in (0, 1, 32767, 32768, 32769, 65536, 65537):
             yield "%s 1 U1.0.%d.0.0,R2.0,R1.0,U2.0.%d.0.0,R1.0,R2.0" % (inst, n, max(3, n // 2))
@@ -286,7 +289,7 @@ def oracle(l, impl):
         if ver < floor:
             return ("operation %d: worker %d served version %d of key %d although version %d had replaced it (an invalidated entry was served)"
                     % (i, op[1], ver, k, floor))
-        if compl == "I" and whole.get((k, ver), True) and inside[i] is None:
+        if compl == "I" and whole.get((k, ver), True):
             return "operation %d: worker %d cut short version %d of key %d, which the origin sent completely" % (i, op[1], ver, k)
         if f[3] == "hit" and purged.get(k):
             return "operation %d: worker %d served key %d from the cache after it was purged" % (i, op[1], k)
